@@ -332,3 +332,162 @@ func tvRun(path string, c tvCase) (out tvOut) {
 	}
 	return
 }
+
+// two-stores-filter: a by-filter operator mutation of the gateway's store (select, then write) with a competing state change made
+// through the other store object at the clock reading between the two statements.  C14: a by-filter mutation changes only messages
+// that are in a state the operation is defined for WHEN IT CHANGES THEM, and counts what it changed.
+func init() { register("two-stores-filter", twoStoresFilter) }
+
+type tfCase struct {
+	Scenario string `json:"scenario"` // requeue-vs-resume-and-lease | cancel-vs-ack | resume-vs-requeue-and-lease
+	HookAt   int64  `json:"hook_at"`
+}
+
+type tfOut struct {
+	ACount     int    `json:"a_count"`
+	AErr       string `json:"a_err,omitempty"`
+	BCount     int    `json:"b_count"`  // what B's own mutation reported (resumed / requeued / acked = 1)
+	BLeased    int    `json:"b_leased"` // messages B's dequeue got
+	BInside    bool   `json:"b_inside"`
+	BBusy      bool   `json:"b_busy"`
+	ClockReads int64  `json:"clock_reads"`
+	Final      string `json:"final"`
+	Lease      string `json:"final_lease"`
+	Err        string `json:"err,omitempty"`
+}
+
+func twoStoresFilter(in []byte) (any, error) {
+	var req struct {
+		Dir   string   `json:"dir"`
+		Cases []tfCase `json:"cases"`
+	}
+	if err := json.Unmarshal(in, &req); err != nil {
+		return nil, err
+	}
+	if err := os.MkdirAll(req.Dir, 0o755); err != nil {
+		return nil, err
+	}
+	outs := make([]tfOut, len(req.Cases))
+	for i, c := range req.Cases {
+		outs[i] = tfRun(filepath.Join(req.Dir, fmt.Sprintf("tf-%d-%d.db", os.Getpid(), i)), c)
+	}
+	return map[string]any{"cases": outs}, nil
+}
+
+func tfRun(path string, c tfCase) (out tfOut) {
+	base := time.Date(2026, 2, 4, 12, 0, 0, 0, time.UTC)
+	var off atomic.Int64
+	nowAt := func() time.Time { return base.Add(time.Duration(off.Load())) }
+	B, err := queue.NewSQLiteStore(path, queue.WithSQLiteNowFunc(nowAt), queue.WithSQLiteDeliveredRetention(24*time.Hour))
+	if err != nil {
+		out.Err = "open operator store: " + err.Error()
+		return
+	}
+	defer B.Close()
+	_ = B.VerifSetBusyTimeout(120)
+	runB := func() (int, int, error) {
+		switch c.Scenario {
+		case "requeue-vs-resume-and-lease":
+			r, err := B.ResumeMessages(queue.MessageResumeRequest{IDs: []string{"evt_1"}})
+			if err != nil {
+				return 0, 0, err
+			}
+			d, err := B.Dequeue(queue.DequeueRequest{Route: "/r", Target: "t", Batch: 1, LeaseTTL: time.Hour})
+			return r.Resumed, len(d.Items), err
+		case "resume-vs-requeue-and-lease":
+			r, err := B.RequeueMessages(queue.MessageRequeueRequest{IDs: []string{"evt_1"}})
+			if err != nil {
+				return 0, 0, err
+			}
+			d, err := B.Dequeue(queue.DequeueRequest{Route: "/r", Target: "t", Batch: 1, LeaseTTL: time.Hour})
+			return r.Requeued, len(d.Items), err
+		default: // cancel-vs-ack
+			d, err := B.Dequeue(queue.DequeueRequest{Route: "/r", Target: "t", Batch: 1, LeaseTTL: time.Hour})
+			if err != nil || len(d.Items) == 0 {
+				return 0, 0, err
+			}
+			if err := B.Ack(d.Items[0].LeaseID); err != nil {
+				return 0, 1, err
+			}
+			return 1, 1, nil
+		}
+	}
+	var armed, attempted atomic.Bool
+	var reads atomic.Int64
+	var bCount, bLeased int
+	var inside, busy bool
+	gwNow := func() time.Time {
+		if armed.Load() {
+			if reads.Add(1) == c.HookAt && attempted.CompareAndSwap(false, true) {
+				n, l, err := runB()
+				if err != nil {
+					busy = true
+				} else {
+					bCount, bLeased, inside = n, l, true
+				}
+			}
+		}
+		return nowAt()
+	}
+	A, err := queue.NewSQLiteStore(path, queue.WithSQLiteNowFunc(gwNow), queue.WithSQLiteDeliveredRetention(24*time.Hour))
+	if err != nil {
+		out.Err = "open gateway store: " + err.Error()
+		return
+	}
+	defer A.Close()
+	if err := A.Enqueue(queue.Envelope{ID: "evt_1", Route: "/r", Target: "t", Payload: []byte("x")}); err != nil {
+		out.Err = err.Error()
+		return
+	}
+	if c.Scenario != "cancel-vs-ack" {
+		if _, err := A.CancelMessages(queue.MessageCancelRequest{IDs: []string{"evt_1"}}); err != nil {
+			out.Err = err.Error()
+			return
+		}
+	}
+	off.Add(int64(time.Second))
+	armed.Store(true)
+	var aerr error
+	f := queue.MessageManageFilterRequest{Route: "/r", Limit: 10}
+	switch c.Scenario {
+	case "requeue-vs-resume-and-lease":
+		r, err := A.RequeueMessagesByFilter(f)
+		out.ACount, aerr = r.Requeued, err
+	case "resume-vs-requeue-and-lease":
+		r, err := A.ResumeMessagesByFilter(f)
+		out.ACount, aerr = r.Resumed, err
+	default:
+		r, err := A.CancelMessagesByFilter(f)
+		out.ACount, aerr = r.Canceled, err
+	}
+	armed.Store(false)
+	out.ClockReads = reads.Load()
+	if aerr != nil {
+		out.AErr = aerr.Error()
+	}
+	if !inside {
+		n, l, err := runB()
+		if err != nil {
+			out.Err = "operator after: " + err.Error()
+			return
+		}
+		bCount, bLeased = n, l
+	}
+	out.BCount, out.BLeased, out.BInside, out.BBusy = bCount, bLeased, inside, busy
+	lr, err := B.LookupMessages(queue.MessageLookupRequest{IDs: []string{"evt_1"}})
+	if err != nil {
+		out.Err = err.Error()
+		return
+	}
+	for _, it := range lr.Items {
+		out.Final = string(it.State)
+	}
+	if envs, err := B.VerifSnapshot(); err == nil {
+		for _, e := range envs {
+			if e.ID == "evt_1" {
+				out.Lease = e.LeaseID
+			}
+		}
+	}
+	return
+}
